@@ -150,63 +150,81 @@ theorem sorted_perm_unique : ∀ (xs ys : List Pair), SortedLex xs → SortedLex
 
 /-! ### the three-way merge -/
 
+theorem mergeLoop_nil (added : List Pair) : mergeLoop [] added = added := rfl
+
+theorem mergeLoop_cons_nil (o : Pair) (os : List Pair) :
+    mergeLoop (o :: os) [] = if o.l.valid then o :: mergeLoop os [] else mergeLoop os [] := by
+  cases h : o.l.valid <;> simp [mergeLoop, mergeInner, h]
+
+theorem mergeLoop_cons_cons (o : Pair) (os : List Pair) (a : Pair) (as : List Pair) :
+    mergeLoop (o :: os) (a :: as) =
+      if !o.l.valid then mergeLoop os (a :: as)
+      else if before o a then o :: mergeLoop os (a :: as)
+      else a :: mergeLoop (o :: os) as := by
+  cases h : o.l.valid <;> simp [mergeLoop, mergeInner, h]
+
+/-- induction along the loop iterations of `merge()` -/
+theorem mergeLoop_induct (P : List Pair → List Pair → Prop)
+    (nil : ∀ added, P [] added)
+    (consNil : ∀ o os, P os [] → P (o :: os) [])
+    (deleted : ∀ o os a as, o.l.valid = false → P os (a :: as) → P (o :: os) (a :: as))
+    (takeOld : ∀ o os a as, o.l.valid = true → before o a = true → P os (a :: as) → P (o :: os) (a :: as))
+    (takeNew : ∀ o os a as, o.l.valid = true → before o a = false → P (o :: os) as → P (o :: os) (a :: as)) :
+    ∀ old added, P old added := by
+  intro old
+  induction old with
+  | nil => exact nil
+  | cons o os ihO =>
+    intro added
+    induction added with
+    | nil => exact consNil o os (ihO [])
+    | cons a as ihA =>
+      cases hv : o.l.valid with
+      | false => exact deleted o os a as hv (ihO _)
+      | true =>
+        cases hb : before o a with
+        | true => exact takeOld o os a as hv hb (ihO _)
+        | false => exact takeNew o os a as hv hb ihA
+
 theorem mergeLoop_nil_right (old : List Pair) : mergeLoop old [] = old.filter (·.l.valid) := by
   induction old with
-  | nil => simp [mergeLoop]
+  | nil => rfl
   | cons o os ih =>
-    rw [mergeLoop]
+    rw [mergeLoop_cons_nil]
     by_cases h : o.l.valid = true
     · simp [h, ih]
     · simp [h, ih]
 
 theorem mergeLoop_perm : ∀ (old added : List Pair),
     (mergeLoop old added).Perm (old.filter (·.l.valid) ++ added) := by
-  intro old added
-  induction old, added using mergeLoop.induct with
-  | case1 added => simp [mergeLoop]
-  | case2 o os hv ih =>
-    rw [mergeLoop_nil_right]; simp
-  | case3 o os hv ih =>
-    rw [mergeLoop_nil_right]; simp
-  | case4 o os a as hv ih =>
-    rw [mergeLoop]
-    have hv' : o.l.valid = false := by simpa using hv
-    simp only [hv', Bool.not_false, if_true]
-    simpa [List.filter_cons, hv'] using ih
-  | case5 o os a as hv hb ih =>
-    rw [mergeLoop]
-    have hv' : o.l.valid = true := by simpa using hv
-    simp only [hv', Bool.not_true, hb, if_true]
-    simp only [Bool.false_eq_true, if_false]
-    simpa [List.filter_cons, hv'] using List.Perm.cons o ih
-  | case6 o os a as hv hb ih =>
-    rw [mergeLoop]
-    have hv' : o.l.valid = true := by simpa using hv
-    simp only [hv', Bool.not_true, hb]
-    simp only [Bool.false_eq_true, if_false]
+  apply mergeLoop_induct
+  · intro added; simp [mergeLoop_nil]
+  · intro o os _; rw [mergeLoop_nil_right]; simp
+  · intro o os a as hv ih
+    rw [mergeLoop_cons_cons]
+    simp only [hv, Bool.not_false, if_true]
+    simpa [List.filter_cons, hv] using ih
+  · intro o os a as hv hb ih
+    rw [mergeLoop_cons_cons]
+    simp only [hv, Bool.not_true, hb, if_true, Bool.false_eq_true, if_false]
+    simpa [List.filter_cons, hv] using List.Perm.cons o ih
+  · intro o os a as hv hb ih
+    rw [mergeLoop_cons_cons]
+    simp only [hv, Bool.not_true, hb, Bool.false_eq_true, if_false]
     exact (List.Perm.cons a ih).trans (List.perm_middle.symm)
 
 theorem mergeLoop_sorted : ∀ (old added : List Pair), SortedLex old → SortedLex added →
     SortedLex (mergeLoop old added) := by
-  intro old added
-  induction old, added using mergeLoop.induct with
-  | case1 added => intro _ h; simpa [mergeLoop] using h
-  | case2 o os hv ih =>
-    intro h _; rw [mergeLoop_nil_right]; exact List.Pairwise.filter _ h
-  | case3 o os hv ih =>
-    intro h _; rw [mergeLoop_nil_right]; exact List.Pairwise.filter _ h
-  | case4 o os a as hv ih =>
-    intro ho ha
-    rw [mergeLoop]
-    have hv' : o.l.valid = false := by simpa using hv
-    simp only [hv', Bool.not_false, if_true]
+  apply mergeLoop_induct
+  · intro added _ h; simpa [mergeLoop_nil] using h
+  · intro o os _ h _; rw [mergeLoop_nil_right]; exact List.Pairwise.filter _ h
+  · intro o os a as hv ih ho ha
+    rw [mergeLoop_cons_cons]
+    simp only [hv, Bool.not_false, if_true]
     exact ih (List.Pairwise.of_cons ho) ha
-  | case5 o os a as hv hb ih =>
-    intro ho ha
-    rw [mergeLoop]
-    have hv' : o.l.valid = true := by simpa using hv
-    simp only [hv', Bool.not_true, hb, if_true]
-    simp only [Bool.false_eq_true, if_false]
+  · intro o os a as hv hb ih ho ha
+    rw [mergeLoop_cons_cons]
+    simp only [hv, Bool.not_true, hb, if_true, Bool.false_eq_true, if_false]
     unfold SortedLex at *
     rw [List.pairwise_cons]
     refine ⟨?_, ih (List.Pairwise.of_cons ho) ha⟩
@@ -219,19 +237,15 @@ theorem mergeLoop_sorted : ∀ (old added : List Pair), SortedLex old → Sorted
       rcases List.mem_cons.1 hx' with rfl | hx'
       · exact hoa
       · exact keyLe_trans hoa (ha.1 x hx')
-  | case6 o os a as hv hb ih =>
-    intro ho ha
-    rw [mergeLoop]
-    have hv' : o.l.valid = true := by simpa using hv
-    simp only [hv', Bool.not_true, hb]
-    simp only [Bool.false_eq_true, if_false]
-    have hb' : before o a = false := by simpa using hb
+  · intro o os a as hv hb ih ho ha
+    rw [mergeLoop_cons_cons]
+    simp only [hv, Bool.not_true, hb, Bool.false_eq_true, if_false]
     unfold SortedLex at *
     rw [List.pairwise_cons]
     refine ⟨?_, ih ho (List.Pairwise.of_cons ha)⟩
     intro x hx
     have hx' := (mergeLoop_perm (o :: os) as).mem_iff.1 hx
-    have hao : keyLe a o := keyLe_of_not_before hb'
+    have hao : keyLe a o := keyLe_of_not_before hb
     have ho' := List.pairwise_cons.1 ho
     have ha' := List.pairwise_cons.1 ha
     rcases List.mem_append.1 hx' with hx' | hx'
